@@ -2,6 +2,7 @@ package main
 
 import (
 	"bytes"
+	"encoding/hex"
 	"errors"
 	"fmt"
 	"io"
@@ -20,6 +21,7 @@ func init() {
 	addReplay("C15", "roundtrip", replayCNTRoundTrip)
 	addReplay("C15", "split", replayCNTSplit)
 	addReplay("C15", "closing", replayCNTClosing)
+	addReplay("C15", "chunking", replayCNTChunking)
 	setCanon("C15", canonReals)
 }
 
@@ -94,6 +96,25 @@ func replayCNTSplit(input string) (bool, string) {
 	return oracleCNTSplit(ops, cuts)
 }
 
+func replayCNTChunking(input string) (bool, string) {
+	data, err := hex.DecodeString(input)
+	if err != nil {
+		return true, "bad replay input"
+	}
+	want := cntImplScanLine(data)
+	for seed := uint64(1); seed <= 200; seed++ {
+		got, err := cntScanChunked(data, NewRand(seed))
+		line := "ok " + cntOpsWire(got, true)
+		if err != nil {
+			line = "err " + err.Error()
+		}
+		if line != want {
+			return false, fmt.Sprintf("chunked (seed %d): %s, in one piece: %s", seed, truncate(line), truncate(want))
+		}
+	}
+	return true, "200 chunkings give the result of the unchunked scan"
+}
+
 func cntNontrivial(ops []content.Operator) bool {
 	for _, op := range ops {
 		if op.Name == content.OpInlineImage {
@@ -150,6 +171,9 @@ func runCNTRoundTrip(c *Ctx) {
 		}
 		// correspondence: the scanner on the writer's bytes
 		c.Emit("CNT scan "+hexWire(data), cntImplScanLine(data))
+		if len(data) > 300 || r.P(1, 4) {
+			cntSameScan(c, data, r.Fork())
+		}
 		if !inDomain {
 			c.Stat("rt_outside_domain")
 			return
@@ -368,6 +392,9 @@ func runCNTTokens(c *Ctx) {
 		c.Emit("CNT tok "+h, cntImplTokLine(data))
 		c.Emit("CNT one "+h, cntImplOneLine(data))
 		c.Emit("CNT scan "+h, cntImplScanLine(data))
+		if len(data) > 300 || r.P(1, 8) {
+			cntSameScan(c, data, r.Fork())
+		}
 	}
 	alpha := []byte{' ', '\n', '\r', 0, '%', '(', ')', '<', '>', '[', ']', '/', '#', '\\', '0', '9', '.', '+', '-', 'E', 'I', 'a'}
 	count := 0
@@ -467,6 +494,13 @@ func runCNTTokens(c *Ctx) {
 	}
 	for _, n := range []int{9, 10, 11, 12} {
 		emit(append(append(append([]byte("BI /W 1/H 1/X "), bytes.Repeat([]byte{'['}, n)...), bytes.Repeat([]byte{']'}, n)...), " ID x\nEI q\n"...))
+	}
+	// deep brackets at the very end of the input inside an inline image dictionary
+	// (two units of model fuel per byte: Props/C15cntt)
+	for n := 1; n <= 14; n++ {
+		emit(append([]byte("BI/K"), bytes.Repeat([]byte{'['}, n)...))
+		emit(append([]byte("BI/K"), bytes.Repeat([]byte("<</A"), n)...))
+		emit(append([]byte("BI /W 1/H 1/K "), bytes.Repeat([]byte("[<</A"), n)...))
 	}
 	for _, n := range []int{62, 63, 64, 65, 66, 130} {
 		emit(append(bytes.Repeat([]byte("1 "), n), "x q\n"...))
